@@ -342,6 +342,13 @@ pub(crate) fn msg_att_body_structure(i: &[u8]) -> IResult<&[u8], AttributeValue>
     })(i)
 }
 
+// "BODY" SP body: the non-extensible form of BODYSTRUCTURE
+pub(crate) fn msg_att_body(i: &[u8]) -> IResult<&[u8], AttributeValue> {
+    map(tuple((tag_no_case("BODY "), body)), |(_, body)| {
+        AttributeValue::BodyStructure(body)
+    })(i)
+}
+
 #[cfg(test)]
 mod tests {
     use super::*;
